@@ -1079,6 +1079,21 @@ func simulate(r *core.R) {
 	if r.Src.Chance(200, "stop_mid_chaos") {
 		synctest.Wait()
 		r.Probe("stopped_mid_chaos")
+		if r.Src.Chance(500, "stop_after_expired_list") {
+			// directed: a connection loss longer than the retry timeout (the caches publish wait-for-datastore), then
+			// the first lists that get through are answered "resource expired" - the caches are connected again but
+			// have not yet published a new status - and the syncer is stopped right there
+			r.Fault("connection_loss_longer_than_retry_timeout")
+			s.runOutage(timeout * 130 / 100)
+			synctest.Wait()
+			for _, ti := range s.parkedTypes() {
+				if !s.types[ti].parked.isWatch {
+					r.Fault("list_expired")
+					s.releaseList(ti, loExpired)
+				}
+			}
+			synctest.Wait()
+		}
 		r.Logf("stop in mid-chaos at +%v (last status %v)", time.Since(start).Round(time.Millisecond), s.lastStatus)
 		s.stopping = true
 		for _, ts := range s.types {
